@@ -155,7 +155,12 @@ fn check_cov(c: &CovCase, obs: &mut Obs) -> Result<(), String> {
                 // 100 000 rows here is not "too hard" but an enumeration that does not converge
                 let y = match guarded(|| if c.universal { DS::from_dsym(&finite_universal_cover(&px)) } else { DS::from_dsym(&subgroup_cover(&px, &fws)) }) {
                     Ok(y) => y,
-                    Err(m) if m.contains("Reached coset table limit") => return Err(format!("{} gives up at the coset table limit of 100 000 rows although the subgroup has index {} (reference enumeration below 3000 rows)", if c.universal { "finite_universal_cover".to_string() } else { format!("subgroup_cover({:?})", words) }, own.len())),
+                    Err(m) if m.contains("Reached coset table limit") && todd_coxeter(cp.nr_gens, &cp.rels, &[], 3_000).is_none() => {
+                        // an infinite (or large) group: the crate's row-by-row strategy may legitimately need more rows
+                        obs.discard("Reached coset table limit in an infinite or large group");
+                        return Ok(());
+                    }
+                    Err(m) if m.contains("Reached coset table limit") => return Err(format!("{} gives up at the coset table limit of 100 000 rows although the subgroup has index {} in a group of order < 3000 (reference enumeration)", if c.universal { "finite_universal_cover".to_string() } else { format!("subgroup_cover({:?})", words) }, own.len())),
                     Err(m) => return Err(format!("panic: {}", m)),
                 };
                 let what = if c.universal { "finite_universal_cover".to_string() } else { format!("subgroup_cover({:?})", words) };
